@@ -399,6 +399,19 @@ FamEditRun(K, CH) ==
               j \in {1, 2}, k \in {1, 2, 3}, f \in ToSet(gr.srcs)} :
           gr \in UNION {GraphsS(sh, EditRunProfiles, K) : sh \in {"chain2", "chain3", "fanin", "fanout", "mixed", "alias", "implicit", "diamond", "group"}} }
 
+\* restat interplay: statement 1 is a restat statement whose input is touched (it re-runs and leaves
+\* its output alone) together with any other change, on random graphs
+RestatGraphs(R) ==
+  UNION { { Graph(<<Mk(1, a, "restat"), Mk(2, b, pa[2]), Mk(3, c, pa[3])>>) :
+              a \in {x \in RandSkels(1, 3, 2) : ~x.phony /\ Len(x.ex) + Len(x.im) > 0}, b \in RandSkels(2, 3, 3), c \in RandSkels(3, 3, 3),
+              pa \in RandomSubset(2, [1..3 -> {"plain", "restat", "gcc", "two"}]) }
+          \cup { Graph(<<Mk(1, a, "restat"), Mk(2, b, pa[2]), Mk(3, c, pa[3]), Mk(4, d, pa[4])>>) :
+              a \in {x \in RandSkels(1, 4, 2) : ~x.phony /\ Len(x.ex) + Len(x.im) > 0}, b \in RandSkels(2, 4, 2), c \in RandSkels(3, 4, 2), d \in RandSkels(4, 4, 2),
+              pa \in RandomSubset(2, [1..4 -> {"plain", "restat", "gcc", "two"}]) } : r \in 1..R }
+FamRestat(K, CH) ==
+  UNION { {Scn(gr, <<Build(Roots(gr), 2, 1), [op |-> "touch", f |-> (gr.stmts[1].ex \o gr.stmts[1].im)[1]], c, Build(Roots(gr), 2, 1), Build(Roots(gr), 2, 1)>>) :
+              c \in Pick(CH, ChangesET(gr))} : gr \in RestatGraphs(K) }
+
 ParK == IF "K" \in DOMAIN IOEnv THEN atoi(IOEnv.K) ELSE 3
 ParCH == IF "CH" \in DOMAIN IOEnv THEN atoi(IOEnv.CH) ELSE 3
 
@@ -409,6 +422,7 @@ Family(name) ==
     [] name = "sched" -> FamSched(ParK, ParCH)
     [] name = "fail" -> FamFail(ParK, ParCH)
     [] name = "rand" -> FamRand(ParK, ParCH)
+    [] name = "restat" -> FamRestat(ParK, ParCH)
     [] name = "dry" -> FamDry(ParK, ParCH)
     [] name = "editrun" -> FamEditRun(ParK, ParCH)
     [] name = "cyc" -> FamCyc(ParK, ParCH)
